@@ -1,4 +1,5 @@
 import Casket.Proofs.VHost
+import Casket.Proofs.VHostStack
 import Casket.Generated.VHost
 /-
 C01 — Virtual-host routing picks the most specific site, or none.
@@ -174,6 +175,87 @@ theorem C01_model_verdict_ok_partial (sites : List Site) (r : Req)
     | site i p => simp [hord]
     | notFound st => simp [hord]
   · simp [hd]
+
+/-! ### Through the real loader (stream `c01.stack`; loader model = `Casket.AutoHTTPS.inspect` of C15) -/
+
+/-- `Address.VHost()` (the address text after the first `://`), which `NewServer` inserts into the
+trie, is exactly the key the C01 model and specification split into host pattern and path. -/
+theorem C01_stack_vhost_is_routed_key (a : Casket.AutoHTTPS.Address) :
+    Casket.VHostStack.toNats a.vhost = vhostOf (Casket.VHostStack.siteOfAddr a).key := by
+  unfold Casket.AutoHTTPS.Address.vhost vhostOf Casket.VHostStack.siteOfAddr
+  exact Casket.VHostStack.vhost_eq a.original
+
+/-- Two site addresses with the same normalised key (`standardizeAddress` → `Normalize` → `Key`)
+anywhere in a Casketfile make `InspectServerBlocks` fail: no server is built. -/
+theorem C01_stack_duplicate_keys_rejected (addrs : List Casket.AutoHTTPS.Bytes) (port : Casket.AutoHTTPS.Bytes)
+    (r : Req) (h : Casket.VHostStackSpec.hasDuplicateKey addrs = true) :
+    ∃ e, Casket.VHostStack.stackRoute addrs port r = .loadError e := by
+  obtain ⟨e, he⟩ := Casket.VHostStack.inspect_dup addrs h
+  exact ⟨e, by simp [Casket.VHostStack.stackRoute, he]⟩
+
+/-- The full-stack judge: for every Casketfile (list of site addresses), listener port and request
+the model's answer gets the verdict "ok", provided the sites the loader accepts for that listener
+have pairwise different routing keys.  `_partial`: the hypothesis fails for addresses that differ
+only in an explicit scheme on one explicit port (known finding C01-scheme-only-duplicate, see the
+witness below); `host` vs `host/` used to fail it too and is now rejected by the loader. -/
+theorem C01_stack_model_verdict_ok_partial (addrs : List Casket.AutoHTTPS.Bytes) (port : Casket.AutoHTTPS.Bytes) (r : Req)
+    (hdistinct : ∀ as, Casket.AutoHTTPS.inspect addrs = .ok as →
+      Casket.VHostStackSpec.hasDuplicateRouteKey
+        (entries ((Casket.VHostStack.groupOf as port 0).map (fun p => Casket.VHostStack.siteOfAddr p.1))) = false) :
+    Casket.VHostStackSpec.verdict addrs port r (Casket.VHostStack.stackRoute addrs port r) = "ok" := by
+  unfold Casket.VHostStackSpec.verdict
+  by_cases hdom : addrs.all Casket.AutoHTTPS.inAddrDomain = true
+  · simp only [hdom, Bool.not_true, Bool.false_eq_true, if_false]
+    by_cases hdup : Casket.VHostStackSpec.hasDuplicateKey addrs = true
+    · obtain ⟨e, he⟩ := C01_stack_duplicate_keys_rejected addrs port r hdup
+      simp [hdup, he]
+    · simp only [hdup, if_false]
+      unfold Casket.VHostStack.stackRoute
+      cases hi : Casket.AutoHTTPS.inspect addrs with
+      | error e => rfl
+      | ok as =>
+        simp only []
+        cases hg : Casket.VHostStack.groupOf as port 0 with
+        | nil => rfl
+        | cons p0 grest =>
+          simp only []
+          rw [← hg]
+          have hd := hdistinct as hi
+          have hnofb : fallbacks ((Casket.VHostStack.groupOf as port 0).map (fun p => Casket.VHostStack.siteOfAddr p.1))
+              = fallbacks ((Casket.VHostStack.groupOf as port 0).map (fun p => Casket.VHostStack.siteOfAddr p.1)).reverse := by
+            have : ∀ l : List Site, (∀ s ∈ l, s.fallback = false) → fallbacks l = catchAll := by
+              intro l hl
+              unfold fallbacks
+              have : l.filter (·.fallback) = [] := by
+                rw [List.filter_eq_nil_iff]; intro s hs; simp [hl s hs]
+              simp [this]
+            rw [this _ (by intro s hs; simp only [List.mem_map] at hs; obtain ⟨p, _, rfl⟩ := hs; rfl),
+              this _ (by intro s hs; simp only [List.mem_reverse, List.mem_map] at hs; obtain ⟨p, _, rfl⟩ := hs; rfl)]
+          have hv := C01_model_verdict_ok_partial
+            ((Casket.VHostStack.groupOf as port 0).map (fun p => Casket.VHostStack.siteOfAddr p.1)) r hnofb
+          cases hr : route ((Casket.VHostStack.groupOf as port 0).map (fun p => Casket.VHostStack.siteOfAddr p.1)) r with
+          | notFound st =>
+            simp only [hd, Bool.false_eq_true, if_false]
+            rw [hr] at hv; exact hv
+          | site j pfx =>
+            simp only []
+            have hj : j < (Casket.VHostStack.groupOf as port 0).length := by
+              have := Casket.VHostStack.route_index_lt hr
+              simpa using this
+            have hgj : (Casket.VHostStack.groupOf as port 0)[j]? = some (Casket.VHostStack.groupOf as port 0)[j] :=
+              List.getElem?_eq_getElem hj
+            rw [hgj]
+            simp only [hd, Bool.false_eq_true, if_false, Casket.VHostStack.groupOf_indexIn hgj]
+            rw [hr] at hv; exact hv
+  · simp [hdom]
+
+/-- What `_partial` excludes is real: `http://a.com:8080/foo` and `https://a.com:8080/foo` pass the
+loader, share the listener on 8080 and the routing key (`a.com`, `/foo`); the later one serves. -/
+theorem C01_stack_duplicate_route_key_witness :
+    let addrs : List Casket.AutoHTTPS.Bytes := [b!"http://a.com:8080/foo", b!"https://a.com:8080/foo"]
+    Casket.VHostStack.stackRoute addrs b!"8080" ⟨[97, 46, 99, 111, 109], [47, 102, 111, 111], 1⟩ = .site 1 [47, 102, 111, 111] ∧
+    Casket.VHostStackSpec.verdict addrs b!"8080" ⟨[97, 46, 99, 111, 109], [47, 102, 111, 111], 1⟩ (.site 1 [47, 102, 111, 111]) ≠ "ok" := by
+  decide
 
 /-- The catch-all hosts of the model are the ones in the source
 (regenerated from `newVHostTrie` on every run). -/
